@@ -45,6 +45,19 @@ pub fn on_store_access() -> bool {
     ARMED_AT.load(Ordering::SeqCst) == n as i64
 }
 
+// ---- H9: what the live actor hands to gossip for its neighbours (sync reports, content announcements)
+static BROADCASTS: std::sync::Mutex<Vec<([u8; 32], Vec<u8>)>> = std::sync::Mutex::new(Vec::new());
+pub fn record_broadcast(namespace: [u8; 32], msg: &[u8]) {
+    if let Ok(mut b) = BROADCASTS.lock() {
+        if b.len() < 4096 {
+            b.push((namespace, msg.to_vec()));
+        }
+    }
+}
+pub fn take_broadcasts() -> Vec<([u8; 32], Vec<u8>)> {
+    BROADCASTS.lock().map(|mut b| std::mem::take(&mut *b)).unwrap_or_default()
+}
+
 pub use crate::engine::verif_engine as engine;
 
 // ---- H7: widen the window between the store actor leaving its loop and dropping its inbox
